@@ -614,6 +614,12 @@ type GuardDef struct {
 	Tags   []string
 }
 
+type TypeInv struct {
+	Type, Pkg string
+	E         Expr
+	Src       string
+}
+
 type PkgRule struct {
 	Prefix   string
 	NoEffect bool
@@ -630,6 +636,7 @@ type SpecDB struct {
 	Immutable []GuardDef
 	PkgRules  []PkgRule
 	RawAxioms [][2]string
+	TypeInvs  []TypeInv
 	Files     []string
 }
 
@@ -640,7 +647,7 @@ func newSpecDB() *SpecDB {
 var directiveWords = map[string]bool{
 	"func": true, "requires": true, "ensures": true, "modifies": true, "loop": true, "pure": true,
 	"ghost": true, "lemma": true, "axiom": true, "uninterp": true, "guarded": true, "immutable": true,
-	"pkg": true, "let": true, "end": true, "rawaxiom": true,
+	"pkg": true, "let": true, "end": true, "rawaxiom": true, "typeinv": true,
 }
 
 // parseTags parses an optional leading "[C01,C05]" or "[C01:name]"
@@ -902,6 +909,18 @@ func (db *SpecDB) parseContractText(file, pkgPath, text string) error {
 				return fmt.Errorf("%s:%d: %v", file, l.ln, err)
 			}
 			db.Axioms = append(db.Axioms, AxiomDef{Name: strings.TrimSpace(rest[:i]), E: e, Pkg: pkgPath, Src: rest[i+1:]})
+		case "typeinv":
+			// typeinv T: expr over `self` (a *T). Assumed for receivers and pointer parameters of
+			// that type at function entry in safety sweeps (the type invariant of the surface).
+			i := strings.Index(rest, ":")
+			if i < 0 {
+				return fmt.Errorf("%s:%d: typeinv T: expr", file, l.ln)
+			}
+			e, err := parseSpecExpr(rest[i+1:])
+			if err != nil {
+				return fmt.Errorf("%s:%d: %v", file, l.ln, err)
+			}
+			db.TypeInvs = append(db.TypeInvs, TypeInv{Type: strings.TrimSpace(rest[:i]), Pkg: pkgPath, E: e, Src: strings.TrimSpace(rest[i+1:])})
 		case "rawaxiom":
 			f := strings.SplitN(rest, " ", 2)
 			if len(f) != 2 {
